@@ -145,7 +145,7 @@ def run(ctx, env):
             ctx.ob("R14.4", o["func"], o["detail"], o["status"] == "discharged", o["reason"], o["site"])
     if body is not None:
         ppaths = c02.parsing_paths(prog)
-        errs = c02.error_sites(body)
+        errs = c02.error_sites(body, an)
         pcs = c02.parse_calls(body, ppaths)
         for (b, i, s) in errs:
             bad = [blk for blk, t, c in pcs if body.reaches(b, blk) or blk == b]
